@@ -1,5 +1,5 @@
 """C16 - SM to SSC conversion keeps every property, chart, timing and note (structural clauses)."""
-from ..rules import convert, fwd
+from ..rules import convert, fwd, readers, writers
 
 EXPLANATION = (
     "Static rule checking of sm_to_ssc: R-ALIAS every aliased item property of the source class resolves to the same key/alias "
@@ -28,9 +28,16 @@ def c4(ctx):
     convert.warps_first(ctx, 'sm_to_ssc')
 
 
+def c5(ctx):
+    writers.base_items(ctx)
+    writers.ssc_chart_items(ctx)
+    readers.ssc_simfile_table(ctx, raw_key_ok=True, relaxed=True)
+
+
 CLAUSES = [
     ("C16.1", "aliases survive conversion (R-ALIAS)", c1),
     ("C16.2-5", "purity and freshness; every chart in order; templates forwarded (R-PURE, R-ORDER, R-FWD)", c2),
     ("C16.3", "every property is copied when the target is SSC (R-TABLE)", c3),
     ("C16.4", "negative BPM/stop refusal first (R-ORDER)", c4),
+    ("C16.6", "the result's serialization loads back as an equal SSC simfile: every key is written, the notes item (by key) last (shared with C02)", c5),
 ]
